@@ -442,6 +442,9 @@ func NumClass(f float64) string {
 		if a >= 1<<53 {
 			return sign + "int>=2^53"
 		}
+		if a >= 1<<52 {
+			return sign + "int>=2^52"
+		}
 		return sign + "int"
 	case a-math.Floor(a) == 0.5:
 		return sign + "half"
